@@ -55,6 +55,7 @@ class Query:
     order_by: list[Order] = dataclasses.field(default_factory=list)
     limit: int | None = None
     offset: int | None = None
+    summarized: bool = False
 
 
 class SqlImpl(TableImpl):
@@ -438,7 +439,7 @@ class SqlImpl(TableImpl):
             query.select += nd.uuids
 
         elif isinstance(nd, verbs.Filter):
-            if query.group_by:
+            if query.group_by or query.summarized:
                 query.having.extend(nd.predicates)
             else:
                 query.where.extend(nd.predicates)
@@ -455,6 +456,7 @@ class SqlImpl(TableImpl):
             query.select = [col._uuid for col in query.partition_by] + nd.uuids
             query.partition_by = []
             query.order_by.clear()
+            query.summarized = True
 
         elif isinstance(nd, verbs.SliceHead):
             if query.limit is None:
